@@ -604,6 +604,10 @@ class Executor:
                 raise Unsupported(f"unpacking of {v.ty}")
         elif isinstance(target, ast.Attribute):
             o = self.eval(target.value)
+            if isinstance(o, VCnd) and target.attr == "index":
+                # the key is also recorded on the conditional object: metadata, not modelled
+                self.dropped.append((self.rel(target), "store of Conditional.index (metadata)"))
+                return
             if isinstance(o, VRef) and st.obj(o.ref)["kind"] == "obj":
                 self.mark_escaped(v)
                 st.set_field(o.ref, target.attr, v)
